@@ -64,6 +64,10 @@ def classify(expr, fn, depth=0):
             # a helper of the library: what it returns, classified inside the helper (a parameter handed back is
             # the caller's object: the registry built around it shares it with whoever else holds it)
             g = mod.func(f)
+            decos = [norm(d.func) if isinstance(d, ast.Call) else norm(d) for d in getattr(g.node, "decorator_list", [])]
+            if any(d.split(".")[-1] in ("lru_cache", "cache", "cached") for d in decos):
+                # a memoised helper hands the very same object to every caller with equal arguments
+                return f"Shared (memoised result of {f})"
             rets = [n.value for n in walk_no_nested(g.node) if isinstance(n, ast.Return) and n.value is not None]
             if not rets:
                 return "Unknown"
@@ -572,6 +576,7 @@ def namespaces(repo, res):
 
 
 MUTANTS = [
+    Mutant("json-table-memoised", "unyt/unit_registry.py", None, "def _correct_old_unit_registry(", "@lru_cache(maxsize=None)\ndef _correct_old_unit_registry(", ("C13-R1",)),
     Mutant("hdf5-shares-default", ARR, "unyt_array.from_hdf5", "unit_lut = default_unit_symbol_lut.copy()", "unit_lut = default_unit_symbol_lut", ("C13-R1", "C13-R2")),
     Mutant("array-deepcopy-shares-registry", ARR, "unyt_array.__deepcopy__", "copy.deepcopy(self.units)", "self.units.copy()", ("C13-R1",), count=2),
     Mutant("class-level-unit-cache", REG, None, "    _unit_system_id = None\n", "    _unit_system_id = None\n    _unit_object_cache = {}\n", ("C13-R1",)),
